@@ -18,6 +18,11 @@ int main(void)
   VACUITY(kf != NULL && gr.init_calls == 0, "spare slot reachable");
   VACUITY(kf == NULL, "missing object reachable");
 #endif
+#ifdef PART_NEWKF
+  econf_file *slot = NULL;
+  econf_err r = econf_newKeyFile(&slot, nondet_char(), nondet_char());
+  VACUITY(r == ECONF_SUCCESS, "construction reachable");
+#endif
 #ifdef PART_GROUPLIST
   econf_file *kf = malloc(sizeof(econf_file)); __CPROVER_assume(kf != NULL);
   kf->group_count = nondet_int();
